@@ -29,6 +29,14 @@ CHECKS = {
          "Per-class free+alloc must sum to trees*TREE_FRAMES and per-class free must sum to the fast count, after every call.", "5 C14"),
  "C15": ("model_checking", "trace validation: SeqChange action (tree words before/after) + FullyOffline guard on allocations",
          "Tree changes must apply to exactly one matching unreserved tree or change nothing; offline trees' frames leave the fast accounting (hidden) and no allocation may come from a fully offline tree.", "5 C15"),
+ "C01": ("model_checking", "linearizability check of enumerated interleavings of the real code against TLA+ ownership model (TraceAbs Call/Lin/Ret)",
+         "The real code runs the scenario catalogue under a baton scheduler with a scheduling point at every atomic access; all schedules with <=2 (quick) / <=3 (thorough) pre-emptions plus PCT schedules are executed and every distinct observable execution is validated by TLC: each successful allocation must take effect at some instant between call and return at which its block is aligned, in range and entirely free in the abstract state.", "5 C01"),
+ "C03": ("model_checking", "trace validation of enumerated interleavings: no panic result is admissible, frees of held blocks must return Ok",
+         "Same executions as C01; panics are caught per call and logged as results, TraceAbs!Call rejects them and any failing free of a held block.", "5 C03"),
+ "C05": ("fault_enumeration", "crash-point enumeration on the real code, recovered state checked by TLC against TraceAbs!Crash",
+         "Before every write to the persistent metadata (and at the end) of random single-thread programs and enumerated concurrent schedules the lower buffer is snapshotted, recovered with Init::Recover into a fresh allocator and observed; TLC evaluates the crash-consistency predicate against its own history variables (held blocks, in-flight calls, abstract free set).", "5 C05"),
+ "C21": ("model_checking", "solo-run enumeration on the real code, step counts validated by TLC against TraceAbs!SoloBound",
+         "At every scheduling point of base schedules every in-flight call is run alone (other threads frozen) until it returns; it must return normally within SoloBound(geometry) own steps.", "5 C21"),
 }
 
 NA = [
